@@ -165,6 +165,8 @@ def run_case(tape, tier):
                                 observed={k: v[:10] for k, v in observed(run)[0].items()})
     res.event_digest = sched.trace_digest(run)
     res.scen_digest = digest(sched.prog_readable(prog))
+    if sched.check_runaway(run, res):
+        return res
     if run.result != ("return",):
         res.violate("unexpected-raise", "fault-free program raised %r" % (run.result,))
         return res
